@@ -2,6 +2,7 @@ package c13
 
 import (
 	"bytes"
+	"compress/gzip"
 	"context"
 	"encoding/json"
 	"fmt"
@@ -672,12 +673,34 @@ func endToEnd(run *rep.Run, rng *rand.Rand, tr *anthropic.Translator) {
 				}
 				gap = 4 * time.Millisecond
 			}
+			// every fifth client asks for gzip, as the SDKs do; a backend that is asked for gzip
+			// answers gzip (the translator has to read the answer whatever the client can decode)
+			wantsGzip := i%5 == 4
 			b.SetProxy(func(r *backend.Record) *backend.Resp {
+				if strings.Contains(r.Get("Accept-Encoding"), "gzip") {
+					var zb bytes.Buffer
+					zw := gzip.NewWriter(&zb)
+					zw.Write(sse)
+					zw.Close()
+					return &backend.Resp{Status: 200, Headers: [][2]string{{"Content-Type", "text/event-stream"}, {"Content-Encoding", "gzip"}}, Body: zb.Bytes(), Chunked: true}
+				}
 				return &backend.Resp{Status: 200, Headers: [][2]string{{"Content-Type", "text/event-stream"}}, Body: sse, Chunked: true, Writes: writes, Gap: gap}
 			})
 			req, _ := http.NewRequest("POST", w.Base+"/olla/anthropic/v1/messages", bytes.NewReader([]byte(`{"model":"mall","max_tokens":64,"stream":true,"messages":[{"role":"user","content":"hi"}]}`)))
 			req.Header.Set("Content-Type", "application/json")
+			if wantsGzip {
+				req.Header.Set("Accept-Encoding", "gzip")
+				run.Count("e2e_cases_client_accepts_gzip", 1)
+			}
 			res := client.Do(hc, req)
+			if wantsGzip && res.Header.Get("Content-Encoding") == "gzip" {
+				// an answer Olla chose to compress for this client is fine: unpack it for the judge
+				if zr, zerr := gzip.NewReader(bytes.NewReader(res.Body)); zerr == nil {
+					if plain, rerr := io.ReadAll(zr); rerr == nil {
+						res.Body = plain
+					}
+				}
+			}
 			run.Eval(fmt.Sprintf("e2e/%s/%s/f=%s/u=%s", eng, shape(c), c.Finish, c.Usage))
 			run.Count("e2e_cases", 1)
 			if res.Status != 200 || res.Err != "" || res.BodyErr != "" {
